@@ -15,7 +15,7 @@ CHECKS = {
    text="For every base frame (10 addresses x 10 types x data blocks of 0..3, 16 and 64/128/255 bytes, plus constructed frames that embed a complete inner frame) and both encodings, EVERY single substitution (all 255 other byte values at every position), deletion, duplication, unequal adjacent transposition and proper prefix, and every wrong length-field and wrong checksum value, is decoded by the real decoder; the result must be an error or exactly the original frame. The fault space of one frame is finite, so it is enumerated completely rather than sampled.",
    note="Base-frame set is finite and listed in the evidence; soundness of 'Ok(original)' exceptions argued in DESIGN.md."),
  "C03": dict(engine="E1 enum", sec="4/C03", technique="bounded-exhaustive string enumeration (all strings up to length L; all strings within edit distance k of valid bases) compared with an independent parser",
-   text="All strings over the 28-symbol structural alphabet up to length 5 (quick) / 6 (thorough), every string within edit distance 1-2 (3 on the shortest bases) of ~75 valid and near-valid bases, every position x all 256 byte values on long bases, and all pairs/triples of representative strings decoded in sequence on a fresh thread, are decoded by the real decoder and by a hand-written index-arithmetic reference parser; class, reported fields, accepted frame and re-encoding must agree and nothing may panic.",
+   text="All strings over the 28-symbol structural alphabet up to length 5 (quick) / 6 (thorough), every string within edit distance 1-2 (3 on the shortest bases) of ~75 valid and near-valid bases, every position x all 256 byte values on long bases, frame-shaped strings whose digit slots hold multi-byte UTF-8 characters, and all pairs/triples of representative strings decoded in sequence on a fresh thread, are decoded by the real decoder and by a hand-written index-arithmetic reference parser; class, reported fields, accepted frame and re-encoding must agree and nothing may panic.",
    note="Trusts the 45-line reference parser; acceptance needs >= 11 bytes so it is reached through the neighbourhoods, not through the short-string sweep."),
  "C04": dict(engine="E1 enum", sec="4/C04", technique=E1,
    text="All 256 types x all 256 first data bytes x lengths {0,1,2,3,16,255} x 5 addresses x tail variants, and all 65536 addresses for each of the 30 recognised codes, type-0 frames and near-miss codes, go Frame -> Message -> Frame through the real conversions and are compared with a literal copy of the protocol table.",
@@ -48,7 +48,7 @@ CHECKS.update({
    text="For every size of an exhaustive box (incl. 0 and heights not a multiple of 8), the real sign sizes and 33x33, and 5 kinds of start page (new; borrowed bytes with non-standard header/padding and 00/FF/fill data; owned bytes): every in-bounds set/clear, set_all true/false and every listed out-of-bounds coordinate (incl. y inside the column's last byte) is executed on the real Page and judged on exactly the observables the statement lists. All sequences of operations are covered by a breadth-first closure to the fixed point (all 2^n pixel states) on tiny pages in lock-step with a boolean grid.",
    note="Header bytes 1..3 and unused high bits are recorded, not judged; closure only on pages up to 18 pixels."),
  "C07": dict(engine="E1 enum", sec="4/C07", technique=E1,
-   text="For every (id,width,height) of the boxes and the real/large sizes: Page::new bytes against the layout formula; every pixel set/read/cleared on a blank page must change exactly bit y%8 of byte 4+x*ceil(h/8)+y/8 (so the pixel-to-bit map is checked injective pixel by pixel); from_bytes for every candidate length around the padded size (owned and borrowed) and over the page's own bytes; the pixel map is also checked on pages over borrowed bytes.",
+   text="For every (id,width,height) of the boxes and the real/large sizes: Page::new bytes against the layout formula; every pixel set (twice) / read / cleared (twice) on a blank page must change exactly bit y%8 of byte 4+x*ceil(h/8)+y/8 (so the pixel-to-bit map is checked injective pixel by pixel); from_bytes for every candidate length around the padded size (owned and borrowed) and over the page's own bytes; the pixel map is also checked on pages over borrowed bytes.",
    note="Trusts the statement's formula as coded in refmodel.rs; large sizes visit boundary pixels only in the quick tier."),
  "C15": dict(engine="E3 tree + E4 devices", sec="4/C15", technique="exhaustive enumeration of environment answer scripts (fragment sizes, interrupts, zero/short transfers, hard errors at every call index) against the real Frame::read/write",
    text="The real Frame::read and Frame::write run against a scripted stream whose every call is answered from a finite script: every composition of short streams into delivery sizes, every subset of interrupted calls among the first m calls, a hard error of 4 kinds and a premature Ok(0) at every call index, <=2 interrupts combined with a terminal fault anywhere on longer streams; likewise for the sink. After every read the stream position must be exactly the end of the first line and the result must equal the reference decoding of that line; writes must deliver exactly the encoding or fail with an I/O error and stop.",
@@ -73,7 +73,7 @@ CHECKS.update({
    text="The same state graphs as C12 (R1, R2, all 11 R3 types, both flip styles) are explored to a fixed point over pairs (real sign, reference automaton); on every transition reply, state(), sign_type() and pages() must equal the automaton's and every stored page must have the configured size. Explicit don't-cares keep the check from demanding more than the statement.",
    note="Trusts refsign.rs (~200 lines, written from the documentation); three documented don't-cares; counters >= 65536 out of bounds."),
  "C14": dict(engine="E2 bfs", sec="4/C14", technique=E2 + " of the real VirtualSignBus, compared step by step with the same real signs run in isolation",
-   text="Breadth-first search over the real VirtualSignBus with 1..4 signs (mixed flip styles, both insertion orders, an absent address) to a fixed point under per-sign bounds. Each sign also exists as an isolated real VirtualSign that is fed only the messages that concern it (addressed to it; unaddressed data/count only while it is receiving). After every transition the bus reply must equal the addressed isolated sign's reply and each sign's state/type/pages must equal its isolated twin, so interference, wrong-sign replies, replies for absent addresses and effects of unaddressed messages on non-receiving signs are all decided, including their delayed consequences.",
+   text="Breadth-first search over the real VirtualSignBus with 1..4 signs (mixed flip styles, both insertion orders, an absent address) to a fixed point under per-sign bounds. Each sign also exists as an isolated real VirtualSign that is fed only the messages that concern it (addressed to it; unaddressed data/count only while it is receiving). After every transition the bus reply must equal the addressed isolated sign's reply and each sign's state/type/pages must equal its isolated twin, so interference, wrong-sign replies, replies for absent addresses and effects of unaddressed messages on non-receiving signs are all decided, including their delayed consequences. A directed sweep delivers each of the 10 addressed message kinds to every one of the 65534 absent addresses from every pair of protocol states of a two-sign bus (72 M deliveries): no reply, nothing changes.",
    note="n>=3 use a reduced alphabet and bounds; refsign.rs only for size bounds; a bus panic is C12's business."),
 })
 IMPLEMENTED = set(CHECKS)
